@@ -177,9 +177,15 @@ pub fn run(c: &Value) -> Value {
             json!({"format":"ok","s":s,"r":r})
         }
         // ------------------------------------------------------------ C03 / C09 / C10
-        "pipe" => {
+        "pipe" | "pipe_v" => {
             let fmt = s_of(c, "fmt");
-            let s = text_of(c, "s");
+            // pipe: the text is given; pipe_v: the text is what the real enum formatter writes for the value
+            let s = if op == "pipe" { text_of(c, "s") } else {
+                match guarded(|| narsese_of(&c["v"]).map(|v| enum_format(fmt).format_narsese(&v))) {
+                    Ok(Ok(s)) => s,
+                    e => return json!({"build":"fail","msg":format!("{e:?}")}),
+                }
+            };
             let e = enum_parse(fmt, &s);
             let (l, keep) = lex_parse(fmt, &s);
             let f = match keep {
@@ -265,9 +271,9 @@ pub fn run(c: &Value) -> Value {
                 Value::Array(a) => a.iter().map(|t| t.as_str().unwrap()).collect(),
                 _ => panic!("bad input"),
             }).collect();
-            let multi = match guarded(|| f.parse_multi(inputs.iter().map(|s| s.as_str()))) {
-                Ok(v) => Value::Array(v.into_iter().map(|r| res(Ok(r), narsese_to)).collect()),
-                Err(p) => json!({"r":"panic","msg":p}),
+            let (multi, multi_panic) = match guarded(|| f.parse_multi(inputs.iter().map(|s| s.as_str()))) {
+                Ok(v) => (Value::Array(v.into_iter().map(|r| res(Ok(r), narsese_to)).collect()), false),
+                Err(_) => (json!([]), true),
             };
             let alone: Vec<Value> = inputs.iter().map(|s| enum_parse(fmt, s)).collect();
             let twice: Vec<Value> = inputs.iter().map(|s| enum_parse(fmt, s)).collect();
@@ -275,7 +281,7 @@ pub fn run(c: &Value) -> Value {
             // lexical parser used repeatedly in the given order, then each alone again (statics are shared)
             let lex_seq: Vec<Value> = inputs.iter().map(|s| lex_parse(fmt, s).0).collect();
             let lex_again: Vec<Value> = inputs.iter().rev().map(|s| lex_parse(fmt, s).0).collect::<Vec<_>>().into_iter().rev().collect();
-            json!({"inputs":inputs,"multi":multi,"alone":alone,"twice":twice,"chars":chars,"lex_seq":lex_seq,"lex_again":lex_again})
+            json!({"inputs":inputs,"multi":multi,"multi_panic":multi_panic,"alone":alone,"twice":twice,"chars":chars,"lex_seq":lex_seq,"lex_again":lex_again})
         }
         // ------------------------------------------------------------ C06 / C07
         "eqhash" => {
